@@ -18,13 +18,15 @@ from checks import sysinj_common as SJ
 
 ERRNO = {"EPERM": 1, "ENOENT": 2, "EINTR": 4, "EIO": 5, "EBADF": 9, "EAGAIN": 11, "ENOMEM": 12, "EACCES": 13,
          "EBUSY": 16, "EEXIST": 17, "ENOTDIR": 20, "EINVAL": 22, "ENFILE": 23, "EMFILE": 24, "ENOTTY": 25, "ENOSPC": 28,
-         "EADDRINUSE": 98, "ECONNREFUSED": 111, "ECONNABORTED": 103, "ECHILD": 10}
+         "EADDRINUSE": 98, "ECONNREFUSED": 111, "ECONNABORTED": 103, "ECHILD": 10, "EINPROGRESS": 115}
 TYPICAL = {"openat": "EMFILE", "socket": "EMFILE", "pipe2": "EMFILE", "accept4": "EMFILE", "epoll_create1": "EMFILE",
            "io_uring_setup": "ENOMEM", "mmap": "ENOMEM", "munmap": "EINVAL", "fork": "EAGAIN", "connect": "ECONNREFUSED",
            "bind": "EADDRINUSE", "listen": "EADDRINUSE", "read": "EIO", "write": "ENOSPC", "ioctl": "ENOTTY", "close": "EIO",
            "wait4": "ECHILD", "getdents64": "EIO", "unlinkat": "EACCES", "mkdirat": "EACCES", "newfstatat": "EACCES",
            "copy_file_range": "EIO", "ppoll": "ENOMEM", "epoll_ctl": "ENOMEM", "epoll_pwait": "EINVAL", "fcntl": "EINVAL"}
 COMMON = ["EMFILE", "ENOMEM", "EINTR", "EACCES"]
+# errnos the code under test branches on (would-block paths of the socket helpers)
+BRANCHY = ["EAGAIN", "EINPROGRESS"]
 
 CREATE1 = {"open", "openat", "openat2", "creat", "socket", "accept", "accept4", "dup", "epoll_create", "epoll_create1",
            "eventfd", "eventfd2", "timerfd_create", "signalfd", "signalfd4", "memfd_create", "io_uring_setup",
@@ -237,6 +239,8 @@ def run(tier):
                 names = [TYPICAL.get(c["name"], "EINVAL")]
                 if tier != "quick":
                     names += [n for n in COMMON if n not in names]
+                    if c["name"] in ("connect", "accept4", "read", "write"):
+                        names += [n for n in BRANCHY if n not in names]
                 for n in names:
                     plan.append({"scenario": s, "k": c["k"], "errno": ERRNO[n], "errname": n, "call": c["name"]})
     if len(dry) < 40:
@@ -339,7 +343,7 @@ def run(tier):
                 "io_uring set-up, incl. invalid arguments) x every system call k the operation issues before it returns x %s; one traced "
                 "process per (scenario, k, errno); every window is replayed by TLC through FdTable.tla (FdTableTrace) and, independently, "
                 "judged on the /proc/<pid>/fd snapshots. non-trivial = distinct (scenario, k, errno) whose fault was actually delivered"
-                % (len(scens), "1 typical errno" if tier == "quick" else "5 errnos (EMFILE, ENOMEM, EINTR, EACCES, typical)"))
+                % (len(scens), "1 typical errno" if tier == "quick" else "5 errnos (EMFILE, ENOMEM, EINTR, EACCES, typical; EAGAIN and EINPROGRESS too for connect/accept4/read/write)"))
     chk.assumptions = [
         "faults are injected at the system-call boundary of the main task only (parent side; the forked child of spawn belongs to C13)",
         "a failing close still releases the descriptor (Linux semantics): close is executed and only its result is overwritten",
